@@ -251,6 +251,12 @@ fn classify(op: Op, cfg: &Cfg, exp: &Snap, got: &Snap, exp_res: &str, got_res: &
         return Some(Finding { tags: if dirty_only { "C12,C05,C06,C11,C04" } else { "C11,C08,C10" }, what: format!("list/map structure after maintenance: {}", errs.join("; ")) });
     }
     if exp_res != got_res { return Some(Finding { tags: if expiry { "C01,C05,C06,C03,C07" } else { "C01,C03,C07" }, what: format!("result of {:?}: expected {} got {}", op, exp_res, got_res) }); }
+    // C01: after insert(k, v) the cache holds v under k or nothing, never an older value
+    if let Op::Insert(k, v) = op {
+        if let Some(e) = got.p.iter().find(|e| e.key == k) {
+            if e.value != v { return Some(Finding { tags: "C01,C03", what: format!("after {:?} + maintenance the cache still holds the older value {} under that key", op, e.value) }); }
+        }
+    }
     if exp.va != got.va { return Some(Finding { tags: "C07", what: format!("invalidate_all watermark after {:?} differs from the specification", op) }); }
     let ek: Vec<u8> = { let mut v: Vec<u8> = exp.p.iter().map(|e| e.key).collect(); v.sort(); v };
     let gk: Vec<u8> = { let mut v: Vec<u8> = got.p.iter().map(|e| e.key).collect(); v.sort(); v };
